@@ -45,8 +45,12 @@ def check_program(job):
                     and r["location"]["range"]["start"]["line"] == e["sline"]]
             same_name = [r for r in res if r.get("name", "").lower() == e["name"].lower()]
             if len(same_name) > 1:
-                bad.append(({"outline:duplicate", "class:" + e["class"]}, {"entry": e, "got": same_name}))
-                continue
+                # a type may legitimately share its name with a generic interface: tell them apart by the opening line
+                at_line = [r for r in same_name if r["location"]["range"]["start"]["line"] == e["sline"]]
+                if len(at_line) != 1:
+                    bad.append(({"outline:duplicate", "class:" + e["class"]}, {"entry": e, "got": same_name}))
+                    continue
+                same_name = at_line
             if not same_name:
                 bad.append(({"outline:missing", "class:" + e["class"]}, {"entry": e}))
                 continue
